@@ -157,3 +157,42 @@ func TestHuntDiscriminatorCollision(t *testing.T) {
 		fmt.Println(pn.Value, "\n", firstLines(pn.Stack, 14))
 	}
 }
+
+// TestHuntLoopWaitingToBeEnabled (VERIF_HUNT=6): a loop whose `enabled` value can never arrive, next to an
+// output that is neither producible nor declared impossible.
+func TestHuntLoopWaitingToBeEnabled(t *testing.T) {
+	if os.Getenv("VERIF_HUNT") != "6" {
+		t.Skip()
+	}
+	LoadSites(os.Getenv("VERIF_SITES"))
+	loadKnown(os.Getenv("VERIF_KNOWN"))
+	body := &ir.Program{Name: "body.yaml", Item: true, SrcPrefix: "body.yaml/", Subs: map[string]*ir.Program{}}
+	body.Steps = []*ir.Step{{ID: "b0", Kind: "plugin", In: []ir.Field{ir.F("a", ir.Ref("input", "v"))}}}
+	body.Outputs = []ir.Output{{ID: "success", E: ir.Obj(ir.F("r", ir.StepRef("b0", "outputs", "success", "a")))}}
+	for _, kind := range []string{"foreach", "plugin"} {
+		p := &ir.Program{Subs: map[string]*ir.Program{"body.yaml": body}}
+		a := &ir.Step{ID: "a", Kind: "plugin", In: []ir.Field{ir.F("a", ir.Lit(int64(1))), ir.F("mode", ir.Lit("err"))}}
+		en := ir.Op("==", ir.StepRef("a", "outputs", "success", "a"), ir.Lit(int64(3)))
+		var second *ir.Step
+		if kind == "foreach" {
+			second = &ir.Step{ID: "loop", Kind: "foreach", Sub: "body.yaml", Items: &ir.Expr{K: "list", Items: []*ir.Expr{ir.Obj(ir.F("v", ir.Lit(int64(1))))}}, Enabled: en}
+		} else {
+			second = &ir.Step{ID: "loop", Kind: "plugin", In: []ir.Field{ir.F("a", ir.Lit(int64(2)))}, Enabled: en}
+		}
+		p.Steps = []*ir.Step{a, second}
+		p.Outputs = []ir.Output{{ID: "success", E: ir.Obj(ir.F("c", ir.StepRef("a", "closed", "result")))}}
+		c := &Case{Property: "C01", Profile: "hunt", Class: "S1", Program: p, Doc: ir.Doc{"n": int64(1), "tag": "t", "flag": false}}
+		c.Policy = simrt.PolicySpec{Kind: "fifo", Seed: 1}
+		r := RunCase(t, c, false)
+		fmt.Println(kind, "PREPARE:", r.PrepareErr, "OUTCOME:", r.Outcome)
+		if len(r.Clients) > 0 {
+			fmt.Println("  ", r.Clients[0].Returned, r.Clients[0].ErrClass, r.Clients[0].EndUS)
+		}
+		v, err := NewView(c, r)
+		if err == nil {
+			for _, x := range OracleTerminates("C01", v) {
+				fmt.Println("   VIOL", x.Rule, x.Shape, x.Parts, "known=", knownID(x))
+			}
+		}
+	}
+}
